@@ -1963,3 +1963,32 @@ foo DUPLICATED_TERM;
         assert_eq!(transitions[0].0, "DUPLICATED_TERM");
     }
 }
+
+#[cfg(feature = "verif")]
+pub mod verif_hooks {
+    use super::*;
+
+    pub fn inp_of(dfa: &DFA, id: InpId) -> &Inp {
+        dfa.get_input(id)
+    }
+
+    pub fn inp_id_raw(id: InpId) -> u32 {
+        id.0
+    }
+
+    pub fn subdfa_of(dfa: &DFA, id: DFAId) -> &DFA {
+        dfa.subdfas.lookup(id)
+    }
+
+    pub fn dfa_id_raw(id: DFAId) -> usize {
+        id.0
+    }
+
+    pub fn num_inputs(dfa: &DFA) -> usize {
+        dfa.inputs.store.len()
+    }
+
+    pub fn num_subdfas(dfa: &DFA) -> usize {
+        dfa.subdfas.store.len()
+    }
+}
